@@ -336,8 +336,18 @@ func harnessOnly(cls string) bool {
 }
 
 func main() {
+	if len(os.Args) >= 2 && os.Args[1] == "selftest" {
+		n := 300
+		if len(os.Args) >= 3 {
+			if v, err := strconv.Atoi(os.Args[2]); err == nil {
+				n = v
+			}
+		}
+		os.MkdirAll(filepath.Join(verifDir, ".cache"), 0o755)
+		os.Exit(selftest(n))
+	}
 	if len(os.Args) < 3 {
-		fatal(2, "usage: verifctl <property> quick|thorough|replay [path]")
+		fatal(2, "usage: verifctl <property> quick|thorough|replay [path] | selftest [n]")
 	}
 	id, mode := os.Args[1], os.Args[2]
 	cfg, ok := props[id]
